@@ -116,17 +116,27 @@ Section Inv.
 Variable K : T -> ghost -> Prop.
 Hypothesis K_move : Kmove K.
 
+(** what attachSiblingsAsArgs leaves alone: every child list but those of [P], of [target] and of the parent of [P] *)
+Definition others (g g' : ghost) (P target : N) (GP : option N) : Prop :=
+  forall q, q <> P -> q <> target -> q <> top P GP -> kids g' q = kids g q.
+
+Definition a2post (s : pstate) (g : ghost) (P target : N) (GP : option N) (l1 l2 m1 m2 : list N) (s' : pstate) : Prop :=
+  exists g' l2' m2',
+     TI s' g' /\ reloc g g' (desc g (top P GP)) /\ kids g' P = l1 ++ target :: l2' /\ ctx g' P GP m1 m2' /\ (forall r, groot g r -> groot g' r) /\
+     pframe (p_tree s) (p_tree s') /\ K (p_tree s') g' /\
+     (length l2' <= length l2)%nat /\ (length m2' <= length m2)%nat /\ others g g' P target GP.
+
+(** out of fuel only if the fuel is at most the number of siblings that can still be taken *)
 Lemma attach2_spec : forall fuel P target sib n s g l1 l2 GP m1 m2,
   TI s g -> glive g P -> kids g P = l1 ++ target :: l2 -> ctx g P GP m1 m2 -> sib_ok l2 m2 sib -> K (p_tree s) g -> tgt s target ->
-  wp True (attachSiblings_go fuel P target sib n true) s (fun r s' => exists g' l2' m2',
-     TI s' g' /\ reloc g g' (desc g (top P GP)) /\ kids g' P = l1 ++ target :: l2' /\ ctx g' P GP m1 m2' /\ (forall r, groot g r -> groot g' r) /\ pframe (p_tree s) (p_tree s') /\ K (p_tree s') g').
+  wp (fuel <= length l2 + length m2)%nat (attachSiblings_go fuel P target sib n true) s (fun r s' => a2post s g P target GP l1 l2 m1 m2 s').
 Proof.
   induction fuel as [|fuel IH]; intros P target sib n s g l1 l2 GP m1 m2 H HlP Hk Hctx Hsib HK Htg; cbn [attachSiblings_go].
-  { apply wp_outOfFuel. exact I. }
+  { apply wp_outOfFuel. lia. }
   pose proof (ti_R _ _ H) as HR. pose proof (R_gwf _ _ HR) as Hwf.
-  assert (Hdone : forall (r : pres), wp True (ret r) s (fun r s' => exists g' l2' m2',
-     TI s' g' /\ reloc g g' (desc g (top P GP)) /\ kids g' P = l1 ++ target :: l2' /\ ctx g' P GP m1 m2' /\ (forall r, groot g r -> groot g' r) /\ pframe (p_tree s) (p_tree s') /\ K (p_tree s') g')).
-  { intros r. apply wp_ret. exists g, l2, m2. split; auto. split; [apply reloc_refl|]. split; auto. split; auto. split; auto. split; [apply pframe_refl|exact HK]. }
+  assert (Hdone : forall (PP : Prop) (r : pres), wp PP (ret r) s (fun r s' => a2post s g P target GP l1 l2 m1 m2 s')).
+  { intros PP r. apply wp_ret. exists g, l2, m2. split; auto. split; [apply reloc_refl|]. split; auto. split; auto. split; auto. split; [apply pframe_refl|].
+    split; [exact HK|]. split; [lia|]. split; [lia|]. intros q _ _ _. reflexivity. }
   destruct (n =? 0); [apply Hdone|].
   rewrite andb_true_r.
   assert (Hin_t : In target (kids g P)) by (rewrite Hk; apply in_or_app; right; left; reflexivity).
@@ -139,20 +149,23 @@ Proof.
   assert (Hrec : forall s2 g2 l2' m2' sib', TI s2 g2 -> reloc g g2 (desc g (top P GP)) -> kids g2 P = l1 ++ target :: l2' ->
             ctx g2 P GP m1 m2' -> sib_ok l2' m2' sib' -> (forall r, groot g r -> groot g2 r) -> pframe (p_tree s) (p_tree s2) ->
             K (p_tree s2) g2 -> tgt s2 target ->
-            wp True (attachSiblings_go fuel P target sib' (n - 1) true) s2 (fun r s' => exists g' l2'' m2'',
-              TI s' g' /\ reloc g g' (desc g (top P GP)) /\ kids g' P = l1 ++ target :: l2'' /\ ctx g' P GP m1 m2'' /\ (forall r, groot g r -> groot g' r) /\ pframe (p_tree s) (p_tree s') /\ K (p_tree s') g')).
-  { intros s2 g2 l2' m2' sib' H2 Rl2 Hk2 Hc2 Hs2 Hroots2 Hpf2 HK2 Htg2.
+            (length l2' <= length l2)%nat -> (length m2' <= length m2)%nat -> (length l2' + length m2' < length l2 + length m2)%nat ->
+            others g g2 P target GP ->
+            wp (Datatypes.S fuel <= length l2 + length m2)%nat (attachSiblings_go fuel P target sib' (n - 1) true) s2
+               (fun r s' => a2post s g P target GP l1 l2 m1 m2 s')).
+  { intros s2 g2 l2' m2' sib' H2 Rl2 Hk2 Hc2 Hs2 Hroots2 Hpf2 HK2 Htg2 Hl1' Hl2' Hlt' Hoth2.
     assert (HlP2 : glive g2 P) by (apply (reloc_glive _ _ _ P Rl2); exact HlP).
-    eapply wp_weaken; [apply (IH P target sib' (n - 1) s2 g2 l1 l2' GP m1 m2' H2 HlP2 Hk2 Hc2 Hs2 HK2 Htg2)|auto|].
-    intros r s' (g' & l2'' & m2'' & F1 & F2 & F3 & F4 & F5 & F6 & F7). exists g', l2'', m2''. split; auto.
+    eapply wp_weaken; [apply (IH P target sib' (n - 1) s2 g2 l1 l2' GP m1 m2' H2 HlP2 Hk2 Hc2 Hs2 HK2 Htg2)|lia|].
+    intros r s' (g' & l2'' & m2'' & F1 & F2 & F3 & F4 & F5 & F6 & F7 & F8 & F9 & F10). exists g', l2'', m2''. split; auto.
     split; [eapply reloc_chain; [apply closed_desc|exact HStop|exact Rl2|exact F2]|].
-    split; auto. split; auto. split; auto. split; [eapply pframe_trans; eauto|exact F7]. }
-  destruct l2 as [|x l2''].
+    split; auto. split; auto. split; auto. split; [eapply pframe_trans; eauto|]. split; [exact F7|]. split; [lia|]. split; [lia|].
+    intros q Q1 Q2 Q3. rewrite (F10 q Q1 Q2 Q3). apply (Hoth2 q Q1 Q2 Q3). }
+  destruct l2 as [|x l2r].
   - (* the siblings of the target are used up: the siblings of the parent *)
     cbn [sib_ok] in Hsib.
-    assert (Heff : forall (Q : N -> pstate -> Prop), Q (hd InvalidIndex m2) s ->
-              wp True (if sib =? InvalidIndex then rdf P o_next else ret sib) s Q).
-    { intros Q HQ. destruct Hsib as [->| ->].
+    assert (Heff : forall (PP : Prop) (Q : N -> pstate -> Prop), Q (hd InvalidIndex m2) s ->
+              wp PP (if sib =? InvalidIndex then rdf P o_next else ret sib) s Q).
+    { intros PP Q HQ. destruct Hsib as [->| ->].
       - rewrite N.eqb_refl. destruct GP as [gp|]; cbn [ctx] in Hctx.
         + assert (Hlgp : glive g gp) by (apply (Hwf gp P); rewrite Hctx; apply in_or_app; right; left; reflexivity).
           destruct (sibling_links _ _ HR gp m1 P m2 Hlgp Hctx) as (o & Ho & _ & _ & _ & Hnx & _).
@@ -169,7 +182,7 @@ Proof.
         + apply wp_ret. exact HQ. }
     apply wp_bind. apply Heff.
     destruct (N.eqb_spec (hd InvalidIndex m2) InvalidIndex) as [Eu|Eu]; [apply Hdone|].
-    destruct (hd_nonempty _ _ _ eq_refl Eu) as (m2'' & Em2). set (u := hd InvalidIndex m2) in *. clearbody u. subst m2.
+    destruct (hd_nonempty _ _ _ eq_refl Eu) as (m2r & Em2). set (u := hd InvalidIndex m2) in *. clearbody u. subst m2.
     destruct GP as [gp|]; cbn [ctx] in Hctx; [|destruct Hctx as (_ & E); discriminate].
     assert (Hin_P : In P (kids g gp)) by (rewrite Hctx; apply in_or_app; right; left; reflexivity).
     assert (Hin_u : In u (kids g gp)) by (rewrite Hctx; apply in_or_app; right; right; left; reflexivity).
@@ -178,24 +191,26 @@ Proof.
     destruct (R_kids _ _ HR _ _ Hgpo Hlgpo) as (_ & _ & _ & Hndg). rewrite Hctx in Hndg.
     assert (Hne_uP : u <> P).
     { intros E. subst u. apply NoDup_remove_2 in Hndg. apply Hndg. apply in_or_app. right. left. reflexivity. }
-    replace (m1 ++ P :: u :: m2'') with ((m1 ++ [P]) ++ u :: m2'') in Hctx by (rewrite <- app_assoc; reflexivity).
-    destruct (sibling_links _ _ HR gp _ u m2'' Hlgp Hctx) as (uo & Huo & _ & Hupar & _ & Hunx & _).
+    replace (m1 ++ P :: u :: m2r) with ((m1 ++ [P]) ++ u :: m2r) in Hctx by (rewrite <- app_assoc; reflexivity).
+    destruct (sibling_links _ _ HR gp _ u m2r Hlgp Hctx) as (uo & Huo & _ & Hupar & _ & Hunx & _).
     apply wp_bind, wp_get. rewrite (TI_ObjectAt _ _ _ H Hlu). apply wp_bind. cbn [need]. apply wp_ret.
     apply wp_bind. apply wp_rdf. exists uo. split; [exact Huo|]. rewrite Hunx.
     apply wp_bind. apply wp_rdf. exists uo. split; [exact Huo|]. rewrite Hupar.
     apply wp_bind, wp_get. rewrite (TI_ObjectAt _ _ _ H Hlgp).
     assert (Hne_tgp : target <> gp) by (apply (grandchild_neq s g gp P target H Hin_P Hin_t)).
-    eapply (move_wp True gp u target (m1 ++ [P]) m2'' _ s g); [exact H|exact Hctx|exact Hlt|exact Hne_tgp| |].
+    eapply (move_wp _ gp u target (m1 ++ [P]) m2r _ s g); [exact H|exact Hctx|exact Hlt|exact Hne_tgp| |].
     { eapply (uncle_not_desc _ _ HR gp P u target); eauto. }
     intros t2 g2 H2 Hk2 Hkt2 Hko2 Hrl2 Hroots2 Hpf2.
     assert (HK2 : K t2 g2).
-    { apply (K_move s g gp u target (m1 ++ [P]) m2'' t2 H HK Hctx Hlt Hne_tgp Htg); auto.
+    { apply (K_move s g gp u target (m1 ++ [P]) m2r t2 H HK Hctx Hlt Hne_tgp Htg); auto.
       right. exists m1, P, l1. split; [reflexivity|exact Hk]. }
-    apply (Hrec _ g2 [] m2'' (hd InvalidIndex m2'')); auto; [| | | |apply tgt_pframe; auto].
+    apply (Hrec _ g2 [] m2r (hd InvalidIndex m2r)); auto; try (cbn [length]; lia).
     + apply Hrl2; [exact HStop| exact HSt|]. eapply desc_step; [constructor|exact Hin_u].
     + rewrite Hko2; auto. intros E. apply (R_child_neq_parent _ _ HR _ _ Hin_P). exact E.
     + cbn [ctx]. rewrite Hk2, <- app_assoc. reflexivity.
     + cbn [sib_ok]. right. reflexivity.
+    + apply tgt_pframe; auto.
+    + intros q Q1 Q2 Q3. cbn [top] in Q3. apply Hko2; auto.
   - (* a following sibling of the target *)
     cbn [sib_ok] in Hsib. subst sib.
     assert (Hin_x : In x (kids g P)) by (rewrite Hk; apply in_or_app; right; right; left; reflexivity).
@@ -207,19 +222,19 @@ Proof.
     destruct (R_kids _ _ HR _ _ Hpo Hlpo) as (_ & _ & _ & Hnd). rewrite Hk in Hnd.
     assert (Hne_xt : x <> target).
     { intros E. subst x. apply NoDup_remove_2 in Hnd. apply Hnd. apply in_or_app. right. left. reflexivity. }
-    replace (l1 ++ target :: x :: l2'') with ((l1 ++ [target]) ++ x :: l2'') in Hk by (rewrite <- app_assoc; reflexivity).
-    destruct (sibling_links _ _ HR P _ x l2'' HlP Hk) as (xo & Hxo & _ & Hxpar & _ & Hxnx & _).
+    replace (l1 ++ target :: x :: l2r) with ((l1 ++ [target]) ++ x :: l2r) in Hk by (rewrite <- app_assoc; reflexivity).
+    destruct (sibling_links _ _ HR P _ x l2r HlP Hk) as (xo & Hxo & _ & Hxpar & _ & Hxnx & _).
     apply wp_bind, wp_get. rewrite (TI_ObjectAt _ _ _ H Hlx). apply wp_bind. cbn [need]. apply wp_ret.
     apply wp_bind. apply wp_rdf. exists xo. split; [exact Hxo|]. rewrite Hxnx.
     apply wp_bind. apply wp_rdf. exists xo. split; [exact Hxo|]. rewrite Hxpar.
     apply wp_bind, wp_get. rewrite (TI_ObjectAt _ _ _ H HlP).
-    eapply (move_wp True P x target (l1 ++ [target]) l2'' _ s g); [exact H|exact Hk|exact Hlt|exact Hne_tP| |].
+    eapply (move_wp _ P x target (l1 ++ [target]) l2r _ s g); [exact H|exact Hk|exact Hlt|exact Hne_tP| |].
     { intros Hd. apply Hne_xt. symmetry. eapply (sibling_not_desc _ _ HR P x target); eauto. }
     intros t2 g2 H2 Hk2 Hkt2 Hko2 Hrl2 Hroots2 Hpf2.
     assert (HK2 : K t2 g2).
-    { apply (K_move s g P x target (l1 ++ [target]) l2'' t2 H HK Hk Hlt Hne_tP Htg); auto.
+    { apply (K_move s g P x target (l1 ++ [target]) l2r t2 H HK Hk Hlt Hne_tP Htg); auto.
       left. exists l1. reflexivity. }
-    apply (Hrec _ g2 l2'' m2 (hd InvalidIndex l2'')); auto; [| | | |apply tgt_pframe; auto].
+    apply (Hrec _ g2 l2r m2 (hd InvalidIndex l2r)); auto; try (cbn [length]; lia).
     + apply Hrl2; [exact HSP|exact HSt|]. eapply desc_step; [exact HSP|exact Hin_x].
     + rewrite Hk2, <- app_assoc. reflexivity.
     + destruct GP as [gp|]; cbn [ctx] in Hctx |- *.
@@ -234,7 +249,9 @@ Proof.
            ++ rewrite Hkt2 in Hq. apply in_app_or in Hq. destruct Hq as [Hq|[Hq|[]]]; [apply (Hroot target Hq)|].
               subst x. apply (R_child_neq_parent _ _ HR _ _ Hin_x). reflexivity.
            ++ rewrite Hko2 in Hq by assumption. apply (Hroot q Hq).
-    + destruct l2'' as [|y l2''']; cbn [sib_ok hd]; [left|]; reflexivity.
+    + destruct l2r as [|y l2rr]; cbn [sib_ok hd]; [left|]; reflexivity.
+    + apply tgt_pframe; auto.
+    + intros q Q1 Q2 Q3. apply Hko2; auto.
 Qed.
 
 (** ---- connectNonNamedObjArg ---- *)
@@ -244,16 +261,19 @@ Definition apost (s : pstate) (g : ghost) (P : N) (GP : option N) (m1 : list N) 
 
 Lemma arg_spec fuel obj arg s g l1 l2 GP m1 m2 :
   TI s g -> glive g obj -> kids g obj = l1 ++ arg :: l2 -> ctx g obj GP m1 m2 -> K (p_tree s) g ->
-  wp True (connectNonNamedObjArg fuel obj arg) s (fun r s' => exists g' l2' m2',
-     apost s g obj GP m1 s' g' m2' /\ kids g' obj = l1 ++ arg :: l2').
+  wp (fuel <= length l2 + length m2)%nat (connectNonNamedObjArg fuel obj arg) s (fun r s' => exists g' l2' m2',
+     apost s g obj GP m1 s' g' m2' /\ kids g' obj = l1 ++ arg :: l2' /\
+     (length l2' <= length l2)%nat /\ (length m2' <= length m2)%nat /\ others g g' obj arg GP).
 Proof.
   intros H Hl Hk Hctx HK. unfold connectNonNamedObjArg.
   pose proof (ti_R _ _ H) as HR.
   assert (Hin : In arg (kids g obj)) by (rewrite Hk; apply in_or_app; right; left; reflexivity).
   destruct ((R_gwf _ _ HR) _ _ Hin) as (_ & Hla).
-  assert (Hdone : forall (r : pres), wp True (ret r) s (fun r s' => exists g' l2' m2',
-     apost s g obj GP m1 s' g' m2' /\ kids g' obj = l1 ++ arg :: l2')).
-  { intros r. apply wp_ret. exists g, l2, m2. split; [|exact Hk]. split; auto. split; [apply reloc_refl|]. split; auto. split; auto. split; [apply pframe_refl|exact HK]. }
+  assert (Hdone : forall (PP : Prop) (r : pres), wp PP (ret r) s (fun r s' => exists g' l2' m2',
+     apost s g obj GP m1 s' g' m2' /\ kids g' obj = l1 ++ arg :: l2' /\
+     (length l2' <= length l2)%nat /\ (length m2' <= length m2)%nat /\ others g g' obj arg GP)).
+  { intros PP r. apply wp_ret. exists g, l2, m2. split; [|split; [exact Hk|split; [lia|split; [lia|intros q _ _ _; reflexivity]]]].
+    split; auto. split; [apply reloc_refl|]. split; auto. split; auto. split; [apply pframe_refl|exact HK]. }
   destruct (TI_live_get _ _ _ H Hla) as (ao & Hao & Hlao).
   apply wp_bind. apply wp_rdo. exists ao. split; [exact Hao|].
   pose proof (ti_info _ _ H _ _ Hao Hlao) as Hinfo.
@@ -273,16 +293,25 @@ Proof.
   - destruct l2 as [|y l2']; cbn [sib_ok hd]; [left|]; reflexivity.
   - exact HK.
   - exact Htg.
-  - intros r s' (g' & l2' & m2' & F1 & F2 & F3 & F4 & F5 & F6 & F7). exists g', l2', m2'. split; [|exact F3]. split; auto.
+  - intros r s' (g' & l2' & m2' & F1 & F2 & F3 & F4 & F5 & F6 & F7 & F8 & F9 & F10). exists g', l2', m2'.
+    split; [split; auto|]. split; [exact F3|]. split; [exact F8|]. split; [exact F9|exact F10].
 Qed.
 
 (** ---- the walk ---- *)
-Definition CNN_spec (fuel : nat) : Prop := forall x s g GP m1 m2, TI s g -> glive g x -> ctx g x GP m1 m2 -> K (p_tree s) g ->
-  wp True (connectNonNamedObjArgs fuel x) s (fun r s' => exists g' m2', apost s g x GP m1 s' g' m2').
+Definition wpost (s : pstate) (g : ghost) (x : N) (GP : option N) (m1 m2 : list N) (s' : pstate) : Prop :=
+  exists g' m2', apost s g x GP m1 s' g' m2' /\ (length m2' <= length m2)%nat /\
+    (forall q, ~ desc g x q -> q <> top x GP -> kids g' q = kids g q).
 
-Definition NNloop_spec (fuel : nat) : Prop := forall obj argIndex s g GP m1 m2, TI s g -> glive g obj -> ctx g obj GP m1 m2 -> K (p_tree s) g ->
-  (argIndex = InvalidIndex \/ In argIndex (kids g obj)) ->
-  wp True (connectNonNamed_loop fuel obj argIndex) s (fun r s' => exists g' m2', apost s g obj GP m1 s' g' m2').
+Definition lpost (s : pstate) (g : ghost) (obj : N) (GP : option N) (m1 m2 l : list N) (s' : pstate) : Prop :=
+  exists g' m2', apost s g obj GP m1 s' g' m2' /\ (length m2' <= length m2)%nat /\
+    (forall q, (forall c, In c l -> ~ desc g c q) -> q <> obj -> q <> top obj GP -> kids g' q = kids g q).
+
+Definition CNN_spec (fuel : nat) : Prop := forall x s g GP m1 m2, TI s g -> glive g x -> ctx g x GP m1 m2 -> K (p_tree s) g ->
+  wp (PO2 g x m2 fuel) (connectNonNamedObjArgs fuel x) s (fun r s' => wpost s g x GP m1 m2 s').
+
+Definition NNloop_spec (fuel : nat) : Prop := forall obj argIndex s g GP m1 m2 l r, TI s g -> glive g obj -> ctx g obj GP m1 m2 -> K (p_tree s) g ->
+  kids g obj = l ++ r -> argIndex = last l InvalidIndex ->
+  wp (PL2 g l r m2 fuel) (connectNonNamed_loop fuel obj argIndex) s (fun r0 s' => lpost s g obj GP m1 m2 l s').
 
 Lemma step_CNN fuel : NNloop_spec fuel -> CNN_spec (S fuel).
 Proof.
@@ -292,8 +321,11 @@ Proof.
   destruct (TI_live_get _ _ _ H Hl) as (o & Ho & Hlo).
   apply wp_bind. apply wp_rdf. exists o. split; [exact Ho|].
   destruct (R_kids _ _ HR _ _ Ho Hlo) as (_ & Hlast & _). rewrite Hlast.
-  apply (IHl x _ s g GP m1 m2 H Hl Hctx HK).
-  destruct (kids g x) as [|c l]; [left; reflexivity|right; apply last_In].
+  eapply wp_weaken; [apply (IHl x _ s g GP m1 m2 (kids g x) [] H Hl Hctx HK (eq_sym (app_nil_r _)) eq_refl)| |].
+  - intros HP n Hn. inversion Hn as [x' n' Hs]; subst. specialize (HP n' Hs). cbn [length] in HP. lia.
+  - intros r s' (g' & m2' & A & B & C). exists g', m2'. split; [exact A|]. split; [exact B|].
+    intros q Hq Hqt. apply C; [|intros ->; apply Hq; constructor|exact Hqt].
+    intros c Hc Hd. apply Hq. eapply desc_trans2; [eapply desc_step; [constructor|exact Hc]|exact Hd].
 Qed.
 
 (** the position of [obj] below its parent survives a rearrangement inside the subtree of [obj] *)
@@ -306,55 +338,102 @@ Proof.
   - destruct Hctx as (Hr & E). split; auto.
 Qed.
 
+Lemma last_split (l : list N) d : l <> [] -> exists l', l = l' ++ [last l d].
+Proof. intros H. exists (removelast l). apply app_removelast_last. exact H. Qed.
+
 Lemma step_NNloop fuel : CNN_spec fuel -> NNloop_spec fuel -> NNloop_spec (S fuel).
 Proof.
-  intros IHc IHl obj argIndex s g GP m1 m2 H Hl Hctx HK Harg. cbn [connectNonNamed_loop].
+  intros IHc IHl obj argIndex s g GP m1 m2 l r H Hl Hctx HK Hkl Harg. cbn [connectNonNamed_loop].
   set (S0 := desc g (top obj GP)).
   assert (HS0top : S0 (top obj GP)) by constructor.
   assert (HS0obj : S0 obj) by (eapply desc_top; eauto).
   destruct (N.eqb_spec argIndex InvalidIndex) as [Ei|Ei].
-  { apply wp_ret. exists g, m2. split; auto. split; [apply reloc_refl|]. split; auto. split; auto. split; [apply pframe_refl|exact HK]. }
-  destruct Harg as [?|Hin]; [contradiction|].
+  { apply wp_ret. exists g, m2. split; [split; auto; split; [apply reloc_refl|]; split; auto; split; auto; split; [apply pframe_refl|exact HK]|].
+    split; [lia|]. intros q _ _ _. reflexivity. }
+  assert (Hne : l <> []) by (intros ->; cbn in Harg; contradiction).
+  destruct (last_split l InvalidIndex Hne) as (l' & El). rewrite <- Harg in El. subst l. rewrite <- app_assoc in Hkl. cbn [app] in Hkl.
+  assert (Hin : In argIndex (kids g obj)) by (rewrite Hkl; apply in_or_app; right; left; reflexivity).
   pose proof (ti_R _ _ H) as HR. pose proof (R_gwf _ _ HR) as Hwf. destruct (Hwf _ _ Hin) as (_ & Hla).
   apply wp_bind. apply wp_objectAt'; [apply (TI_ObjectAt _ _ _ H Hla)|].
   destruct (TI_live_get _ _ _ H Hla) as (ao0 & Hao0 & Hlao0).
   apply wp_bind. apply wp_rdf. exists ao0. split; [exact Hao0|]. rewrite (R_index _ _ HR _ _ Hao0).
-  destruct (in_split _ _ Hin) as (l1 & l2 & Ekids).
+  assert (Hsplit : forall m, szl g (l' ++ [argIndex]) m -> exists a n, szl g l' a /\ sz g argIndex n /\ m = (a + n)%nat).
+  { intros m Hm. destruct (szl_app g l' [argIndex] m Hm) as (a & b & A & B & E). exists a, b. split; [exact A|]. split; [apply szl_one; exact B|exact E]. }
+  assert (Hin' : forall c, In c l' -> In c (kids g obj)) by (intros c Hc; rewrite Hkl; apply in_or_app; left; exact Hc).
+  assert (Hnd : NoDup (l' ++ argIndex :: r)).
+  { destruct (TI_live_get _ _ _ H Hl) as (oo & Hoo & Hloo). destruct (R_kids _ _ HR _ _ Hoo Hloo) as (_ & _ & _ & Hn). rewrite Hkl in Hn. exact Hn. }
+  assert (Hca : forall c, In c l' -> c <> argIndex).
+  { intros c Hc ->. apply NoDup_remove_2 in Hnd. apply Hnd. apply in_or_app. left. exact Hc. }
   (* the subtree of the argument *)
-  apply wp_bind. eapply wp_weaken; [apply (IHc argIndex s g (Some obj) l1 l2 H Hla Ekids HK)|auto|].
-  intros res s1 (g1 & l2a & H1 & Rl1 & Hk1 & Hroots1 & Hpf1 & HK1). cbn [top ctx] in Rl1, Hk1.
+  apply wp_bind. eapply wp_weaken; [apply (IHc argIndex s g (Some obj) l' r H Hla Hkl HK)| |].
+  { intros HP m Hm. destruct (Hsplit m Hm) as (a & n & A & B & ->). specialize (HP n B). lia. }
+  intros res s1 (g1 & r1 & (H1 & Rl1 & Hk1 & Hroots1 & Hpf1 & HK1) & Hlen1 & HF1). cbn [top ctx] in Rl1, Hk1, HF1.
   assert (Rl1' : reloc g g1 S0).
   { eapply reloc_lift; [|exact Rl1]. intros y Hy. eapply desc_in_closed; [apply closed_desc|exact HS0obj|exact Hy]. }
   assert (Hctx1 : ctx g1 obj GP m1 m2) by (apply (ctx_inside s g g1 obj GP m1 m2 H Hctx Rl1 Hroots1)).
   assert (Hl1 : glive g1 obj) by (apply (reloc_glive _ _ _ obj Rl1); exact Hl).
+  pose proof (ti_R _ _ H1) as HR1.
+  assert (Hsame1 : forall c y, In c l' -> desc g c y -> kids g1 y = kids g y).
+  { intros c y Hc Hd. apply HF1.
+    - intros Hd'. apply (Hca c Hc). apply (siblings_disjoint2 (p_tree s) g obj c argIndex y HR (Hin' c Hc) Hin Hd Hd').
+    - intros ->. apply (child_not_desc _ _ HR obj c (Hin' c Hc) Hd). }
+  assert (Htr1 : forall a, szl g l' a -> szl g1 l' a) by (intros a Ha; apply (proj2 (sz_same g g1) l' a Ha Hsame1)).
+  (* what the loop leaves alone, so far *)
+  assert (HFq1 : forall q, (forall c, In c (l' ++ [argIndex]) -> ~ desc g c q) -> q <> obj -> kids g1 q = kids g q).
+  { intros q Hq Hqo. apply HF1; [apply Hq; apply in_or_app; right; left; reflexivity|exact Hqo]. }
   destruct (negb (pres_eqb res ROk)).
-  { apply wp_ret. exists g1, m2. split; auto. }
+  { apply wp_ret. exists g1, m2. split; [split; auto|]. split; [lia|]. intros q Hq Hqo _. apply HFq1; auto. }
   (* the argument itself *)
-  apply wp_bind. eapply wp_weaken; [apply (arg_spec fuel obj argIndex s1 g1 l1 l2a GP m1 m2 H1 Hl1 Hk1 Hctx1 HK1)|auto|].
-  intros r s2 (g2 & l2b & m2b & (H2 & Rl2 & Hctx2 & Hroots2 & Hpf2 & HK2) & Hk2).
+  apply wp_bind. eapply wp_weaken; [apply (arg_spec fuel obj argIndex s1 g1 l' r1 GP m1 m2 H1 Hl1 Hk1 Hctx1 HK1)| |].
+  { intros HP m Hm. destruct (Hsplit m Hm) as (a & n & A & B & ->). pose proof (sz_pos _ _ _ B). lia. }
+  intros r0 s2 (g2 & r2 & m2b & (H2 & Rl2 & Hctx2 & Hroots2 & Hpf2 & HK2) & Hk2 & Hlen2 & Hlenm2 & HF2).
   assert (Hpf02 : pframe (p_tree s) (p_tree s2)) by (eapply pframe_trans; eauto).
   assert (Rl2' : reloc g g2 S0) by (eapply reloc_chain; [apply closed_desc|exact HS0top|exact Rl1'|exact Rl2]).
-  destruct (pres_eqb r RFailed).
-  { apply wp_ret. exists g2, m2b. split; [exact H2|]. split; [exact Rl2'|]. split; [exact Hctx2|].
-    split; [intros r0 Hr0; apply Hroots2; apply Hroots1; exact Hr0|]. split; [exact Hpf02|exact HK2]. }
+  assert (Hin1' : forall c, In c l' -> In c (kids g1 obj)) by (intros c Hc; rewrite Hk1; apply in_or_app; left; exact Hc).
+  assert (Hin1a : In argIndex (kids g1 obj)) by (rewrite Hk1; apply in_or_app; right; left; reflexivity).
+  assert (Hnottop : forall c y, In c l' -> desc g1 c y -> y <> top obj GP).
+  { intros c y Hc Hd ->. destruct GP as [gp|]; cbn [top ctx] in *.
+    - assert (Hin_o : In obj (kids g1 gp)) by (rewrite Hctx1; apply in_or_app; right; left; reflexivity).
+      apply (child_not_desc _ _ HR1 gp obj Hin_o). eapply desc_trans2; [eapply desc_step; [constructor|exact (Hin1' c Hc)]|exact Hd].
+    - apply (child_not_desc _ _ HR1 obj c (Hin1' c Hc) Hd). }
+  assert (Hsame2 : forall c y, In c l' -> desc g1 c y -> kids g2 y = kids g1 y).
+  { intros c y Hc Hd. apply HF2.
+    - intros ->. apply (child_not_desc _ _ HR1 obj c (Hin1' c Hc) Hd).
+    - intros ->. apply (Hca c Hc). apply (siblings_disjoint2 (p_tree s1) g1 obj c argIndex argIndex HR1 (Hin1' c Hc) Hin1a Hd). constructor.
+    - apply (Hnottop c y Hc Hd). }
+  assert (Hsame12 : forall c y, In c l' -> desc g c y -> kids g2 y = kids g y).
+  { intros c y Hc Hd. rewrite (Hsame2 c y Hc); [apply (Hsame1 c y Hc Hd)|].
+    apply (desc_same_fwd g g1 c y); [intros z Hz; apply (Hsame1 c z Hc Hz)|exact Hd]. }
+  assert (Htr2 : forall a, szl g l' a -> szl g2 l' a) by (intros a Ha; apply (proj2 (sz_same g g2) l' a Ha Hsame12)).
+  assert (HFq2 : forall q, (forall c, In c (l' ++ [argIndex]) -> ~ desc g c q) -> q <> obj -> q <> top obj GP -> kids g2 q = kids g q).
+  { intros q Hq Hqo Hqt. rewrite HF2; [apply HFq1; auto|exact Hqo| |exact Hqt].
+    intros ->. apply (Hq argIndex); [apply in_or_app; right; left; reflexivity|constructor]. }
+  destruct (pres_eqb r0 RFailed).
+  { apply wp_ret. exists g2, m2b. split; [split; [exact H2|]; split; [exact Rl2'|]; split; [exact Hctx2|];
+      split; [intros r' Hr'; apply Hroots2; apply Hroots1; exact Hr'|]; split; [exact Hpf02|exact HK2]|].
+    split; [exact Hlenm2|]. intros q Hq Hqo Hqt. apply HFq2; auto. }
   (* the previous argument *)
   pose proof (ti_R _ _ H2) as HR2.
-  assert (Hin2 : In argIndex (kids g2 obj)) by (rewrite Hk2; apply in_or_app; right; left; reflexivity).
-  destruct ((R_gwf _ _ HR2) _ _ Hin2) as (Hlo2 & Hla2).
-  destruct (TI_live_get _ _ _ H2 Hla2) as (ao2 & Hao2 & Hlao2).
-  apply wp_bind. apply wp_rdf. exists ao2. split; [exact Hao2|].
-  eapply wp_weaken; [apply (IHl obj (o_prev ao2) s2 g2 GP m1 m2b H2 Hlo2 Hctx2 HK2)|auto|].
-  - apply (prev_sibling _ _ HR2 obj argIndex ao2 Hin2 Hao2).
-  - intros r' s' (g' & m2' & F1 & F2 & F3 & F4 & F5 & F6). exists g', m2'. split; auto.
-    split; [eapply reloc_chain; [apply closed_desc|exact HS0top|exact Rl2'|exact F2]|].
-    split; [exact F3|]. split; [intros r0 Hr0; apply F4; apply Hroots2; apply Hroots1; exact Hr0|].
-    split; [eapply pframe_trans; eauto|exact F6].
+  assert (Hlo2 : glive g2 obj) by (apply (reloc_glive _ _ _ obj Rl2'); exact Hl).
+  destruct (sibling_links _ _ HR2 obj l' argIndex r2 Hlo2 Hk2) as (ao2 & Hao2 & _ & _ & Hprev & _).
+  apply wp_bind. apply wp_rdf. exists ao2. split; [exact Hao2|]. rewrite Hprev.
+  eapply wp_weaken; [apply (IHl obj (last l' InvalidIndex) s2 g2 GP m1 m2b l' (argIndex :: r2) H2 Hlo2 Hctx2 HK2 Hk2 eq_refl)| |].
+  - intros HP m Hm. destruct (Hsplit m Hm) as (a & n & A & B & ->). specialize (HP a (Htr2 a A)). pose proof (sz_pos _ _ _ B). cbn [length] in HP. lia.
+  - intros r' s' (g' & m2' & (F1 & F2 & F3 & F4 & F5 & F6) & Flen & FF). exists g', m2'.
+    split; [split; [exact F1|]; split; [eapply reloc_chain; [apply closed_desc|exact HS0top|exact Rl2'|exact F2]|]|].
+    + split; [exact F3|]. split; [intros r0' Hr0; apply F4; apply Hroots2; apply Hroots1; exact Hr0|].
+      split; [eapply pframe_trans; eauto|exact F6].
+    + split; [lia|]. intros q Hq Hqo Hqt. rewrite FF; [apply HFq2; auto| |exact Hqo|exact Hqt].
+      intros c Hc Hd. apply (Hq c); [apply in_or_app; left; exact Hc|].
+      apply (desc_same g g2 c q (fun y Hy => Hsame12 c y Hc Hy) Hd).
 Qed.
 
 Lemma nonNamed_all : forall fuel, CNN_spec fuel /\ NNloop_spec fuel.
 Proof.
   induction fuel as [|fuel (IHc & IHl)].
-  - split; intro; intros; cbn [connectNonNamedObjArgs connectNonNamed_loop]; apply wp_outOfFuel; exact I.
+  - split; intro; intros; cbn [connectNonNamedObjArgs connectNonNamed_loop]; apply wp_outOfFuel.
+    + intros n Hn. pose proof (sz_pos _ _ _ Hn). lia.
+    + intros m Hm. lia.
   - split; [apply step_CNN; exact IHl|apply step_NNloop; assumption].
 Qed.
 End Inv.
@@ -371,5 +450,5 @@ Proof.
   intros fuel x s g HR Hi Hp Hl Hroot.
   pose proof (proj1 (nonNamed_all KT KT_move fuel) x s g None [] [] (mkTI _ _ HR Hi Hp) Hl (conj Hroot eq_refl) I) as W. unfold wp in W.
   destruct (connectNonNamedObjArgs fuel x s) as [[r s']| |]; auto.
-  destruct W as (g' & m2' & [A B C] & _). eauto.
+  destruct W as (g' & m2' & ([A B C] & _) & _). eauto.
 Qed.
